@@ -307,6 +307,18 @@ pub fn mutations(rng: &mut Rng, file: &[u8], stride: usize) -> Vec<(String, Vec<
                 l.swap(k, k + 1);
                 out.push((format!("swap#{}", k), rebuild(&l)));
             }
+            // payload bytes changed under a recomputed CRC (reaches the code behind the CRC check without --fix)
+            if !list[k].1.is_empty() {
+                for v in 0..3 {
+                    let mut l = list.clone();
+                    let n = l[k].1.len();
+                    for _ in 0..=v {
+                        let at = rng.below(n as u64) as usize;
+                        l[k].1[at] = match rng.below(4) { 0 => 0, 1 => 0xff, 2 => l[k].1[at].wrapping_add(1), _ => rng.below(256) as u8 };
+                    }
+                    out.push((format!("payload#{}v{}", k, v), rebuild(&l)));
+                }
+            }
             // payload length edits (CRC recomputed, so the walker gets past it)
             for newlen in [0usize, 1, 3, 4, 5, 12, 25, 27] {
                 let mut l = list.clone();
@@ -591,9 +603,21 @@ pub fn corr(ctx: &mut Ctx) {
                 Some(cs) => cs.iter().filter(|c| &c.0 == b"IDAT").flat_map(|c| c.1.iter().copied()).collect(),
                 None => vec![],
             };
-            let inflated = miniz_oxide::inflate::decompress_to_vec_zlib_with_limit(&idat, 1 << 22).ok();
-            // libdeflate accepts trailing garbage after a complete stream, miniz too; when miniz
-            // rejects the stream the exact error class of the code is not predicted
+            // The inflater is a parameter of the model (contract D1): it is given what the library the code links
+            // (libdeflate) makes of the stream. libdeflate accepts some corrupt streams that zlib / miniz reject
+            // (e.g. an invalid distance code after a bit flip with --fix): those are counted, not judged.
+            let inflated = {
+                let mut dec = libdeflater::Decompressor::new();
+                let mut buf = vec![0u8; 1 << 22];
+                match dec.zlib_decompress(&idat, &mut buf) {
+                    Ok(n) => { buf.truncate(n); Some(buf) }
+                    Err(_) => None,
+                }
+            };
+            if inflated.is_some() != miniz_oxide::inflate::decompress_to_vec_zlib_with_limit(&idat, 1 << 22).is_ok() {
+                st.count("inflaters_disagree_on_validity");
+            }
+            // when the stream is rejected the exact error class of the code is not predicted
             let ans = match &r {
                 None => "panic".to_string(),
                 Some(Err(e)) => format!("err {}", err_kind(e)),
